@@ -10,6 +10,7 @@ CONSTANTS
   BaseAtIH = TRUE
   Alias = FALSE
   MarksDurable = TRUE
+  SeedDataFromHeader = FALSE
   Rec = FALSE
 PROPERTIES EventuallyDone EventuallyIncluded
 CHECK_DEADLOCK FALSE
